@@ -640,6 +640,43 @@ def replay_errors(p):
     return (not ok), f"invalid requests gave {out}"
 
 
+def _narrow_int_means():
+    """chi-squared noise whose mean is handed over as a NumPy fixed-width integer (scalar, or drawn from an integer table):
+    the recorded estimates are those of the same mean given as a float (executed concretely: integer wrap-around is not
+    part of the exact-real model)"""
+    import setigen as stg
+    import warnings
+    msgs = []
+    with warnings.catch_warnings():
+        warnings.simplefilter('ignore')
+        for val, ty in ((4000000, np.int32), (300, np.int16), (200, np.uint8), (4000000, np.int64)):
+            ref = stg.Frame(fchans=8, tchans=4, df=2.0, dt=4.0, fch1=4096.0, seed=1)
+            ref.add_noise(float(val))
+            a = stg.Frame(fchans=8, tchans=4, df=2.0, dt=4.0, fch1=4096.0, seed=1)
+            a.add_noise(ty(val))
+            b = stg.Frame(fchans=8, tchans=4, df=2.0, dt=4.0, fch1=4096.0, seed=1)
+            b.add_noise_from_obs(np.array([val], dtype=ty), noise_type='chi2')
+            for how, fr in (('add_noise', a), ('add_noise_from_obs', b)):
+                if not (np.isfinite(fr.noise_std) and np.isclose(fr.noise_std, ref.noise_std, rtol=1e-12) and np.isclose(fr.noise_mean, ref.noise_mean, rtol=1e-12)):
+                    msgs.append(f"{how}(mean {ty.__name__}({val})): recorded deviation {fr.noise_std!r}, with a float mean {ref.noise_std!r}")
+    return msgs
+
+
+def job_narrow_int_means():
+    recs = []
+    msgs = _narrow_int_means()
+    r, _ = core.check([RV(len(msgs)) != 0])
+    recs.append(q("C11:estimates:narrow-integer-mean", r, trivial=True, detail='; '.join(msgs[:2])))
+    if msgs:
+        recs.append(cex('C11:estimates:narrow-int', '; '.join(msgs[:2]), dict(fn='narrow_int'), name="C11:estimates:narrow-integer-mean"))
+    return recs
+
+
+def replay_narrow_int(p):
+    msgs = _narrow_int_means()
+    return bool(msgs), '; '.join(msgs[:3]) or 'estimates agree for NumPy integer means'
+
+
 def replay_snr(p):
     import setigen as stg
     msgs = []
@@ -671,7 +708,7 @@ def replay_quadrature(p):
     return bad, f"sequence {p['seq']}: total {st.get_total_noise_std()} (expected {want}), other antenna {other.get_total_noise_std()} (expected {want_o})"
 
 
-REPLAYS = {'large_noise': replay_large_noise, 'add_noise': replay_add_noise, 'from_obs': replay_from_obs, 'errors': replay_errors, 'snr': replay_snr, 'quadrature': replay_quadrature, 'quadrature_pols': replay_quadrature_pols, 'default_tables': replay_default_tables}
+REPLAYS = {'narrow_int': replay_narrow_int, 'large_noise': replay_large_noise, 'add_noise': replay_add_noise, 'from_obs': replay_from_obs, 'errors': replay_errors, 'snr': replay_snr, 'quadrature': replay_quadrature, 'quadrature_pols': replay_quadrature_pols, 'default_tables': replay_default_tables}
 
 
 def main():
@@ -687,6 +724,7 @@ def main():
         for prior in ('zero', 'content', 'zeroed', 'zeroed_int'):
             jobs.append(('job_add_noise', (2, 2 if ntype != 'chi2' else 3, ntype, prior)))
     jobs.append(('job_errors', ()))
+    jobs.append(('job_narrow_int_means', ()))
     for ntype in ('chi2', 'gaussian', 'truncated'):
         jobs.append(('job_large_noise', (ntype,)))
     for ntype in ('chi2', 'gaussian'):
